@@ -465,6 +465,19 @@ def prevMomentOperatingOn (c : Circuit) (qs : List Nat) (e : Nat) : Option Nat :
     | some i => some (e' - 1 - i)
     | none => none
 
+/-- `next_moment_operating_on(qubits, start, max_distance=d)`: only the moments `start ≤ m < start + d` are looked at -/
+def nextMomentWithin (c : Circuit) (qs : List Nat) (start d : Nat) : Option Nat :=
+  match nextMomentOperatingOn c qs start with
+  | some m => if m < start + d then some m else none
+  | none => none
+
+/-- `prev_moment_operating_on(qubits, end_moment_index=e, max_distance=d)`: only the moments `e - d ≤ m < e` are looked at
+(indices past the end of the circuit use up distance like any other) -/
+def prevMomentWithin (c : Circuit) (qs : List Nat) (e d : Nat) : Option Nat :=
+  match prevMomentOperatingOn c qs e with
+  | some m => if e ≤ m + d then some m else none
+  | none => none
+
 def allMkeys (c : Circuit) : List Nat := (c.flatMap mMkeys).eraseDups
 
 /-! ### specification predicates evaluated on implementation outputs -/
